@@ -49,6 +49,8 @@ type wiring struct {
 	phase string
 	// keep: fresh() re-uses the adapter objects of parties that already have one (a long-lived instance serving session after session)
 	keep bool
+	// hostileCaller: Init gets the party list in descending order, in a slice that the caller overwrites after Init returned
+	hostileCaller bool
 	// route decides what reaches whom for an emitted message; default: genuine delivery
 	route func(e emitted, deliver deliverFn)
 }
@@ -75,7 +77,20 @@ func (w *wiring) fresh(phase string, members []uint16, shares map[uint16][]byte)
 	for _, id := range members {
 		id := id
 		a := w.parts[id]
-		a.Init(append([]uint16{}, members...), w.thr, func(msg []byte, bcast bool, to uint16) { w.onSend(id, members, msg, bcast, to) })
+		lst := append([]uint16{}, members...)
+		if w.hostileCaller {
+			// a caller that lists the parties in descending order ...
+			for i, j := 0, len(lst)-1; i < j; i, j = i+1, j-1 {
+				lst[i], lst[j] = lst[j], lst[i]
+			}
+		}
+		a.Init(lst, w.thr, func(msg []byte, bcast bool, to uint16) { w.onSend(id, members, msg, bcast, to) })
+		if w.hostileCaller {
+			// ... and re-uses its slice for something else once Init has returned
+			for i := range lst {
+				lst[i] = 0xFFF0 - uint16(i)
+			}
+		}
 		if shares != nil {
 			if err := a.SetShareData(shares[id]); err != nil {
 				return fmt.Errorf("SetShareData(%d): %v", id, err)
